@@ -52,7 +52,7 @@ def cases(tier):
     for first in range(-1, len(EVENTS)):
         yield ("hist", 3 if tier == "quick" else 4, first)
     for model in range(len(FAULT_MODELS)):
-        for layout in range(6):
+        for layout in range(7):
             for via in ("api", "cli"):
                 yield ("fault", model, layout, via)
 
@@ -277,6 +277,10 @@ def _layout(its, which):
             lay[i] = 2 if which == 2 else 1  # comment line / blank line
         if it.meta == "lead" and which == 2:
             lay[i] = it.alts.index(G.COMMENT + "\n")
+        if it.meta == "lead" and which == 6:
+            lay[i] = it.alts.index("\n\n")  # layout 6: the file begins with two blank lines
+        if which == 6 and it.meta == "nl" and "\n    " in it.alts and its[i - 1].meta in ("lparen", "comma"):
+            lay[i] = it.alts.index("\n    ")
     return lay
 
 
